@@ -80,4 +80,45 @@ def prepare(ctx):
 
 
 def obligations(ctx):
-    return []
+    ext = '"%s"' % os.path.join(ctx.ext, EXT)
+    inj = '"%s"' % os.path.join(ctx.ext, "inj_" + EXT)
+    P = "harness/C18/proof.c"
+    B = "harness/C18/collapse_bounded.c"
+    # dfcc write-set bookkeeping is indexed by object id: small --object-bits and no field-sensitive expansion keep it cheap
+    pf = dict(mode="proof", defines={"COLLAPSE_INC": inj}, loops=True, termination=True, instr=["--no-malloc-may-fail"],
+              cbmc=["--object-bits", "8", "--max-field-sensitivity-array-size", "64"], timeout=1200, mem_gb=12)
+    pf6 = dict(pf, cbmc=["--object-bits", "6", "--max-field-sensitivity-array-size", "64"])
+    obls = [
+        Obl("C18.parent_path_p.contract", "C18", P, entry="h_parent_path_p", enforce="parent_path_p", functions=["parent_path_p"], **pf6),
+        Obl("C18.read_path.contract", "C18", P, entry="h_read_path", enforce="read_path", functions=["read_path"], **pf6),
+        Obl("C18.move_path.contract", "C18", P, entry="h_move_path", enforce="move_path", functions=["move_path"], **pf6),
+        Obl("C18.collapsePath.inplace_safety", "C18", P, entry="h_collapsePath", enforce="Ports_collapsePath",
+            replace=["parent_path_p", "read_path", "move_path"], functions=["Ports::collapsePath"], **pf),
+        Obl("C18.collapsePath.inplace_safety.canary", "C18", P, entry="h_collapsePath", enforce="Ports_collapsePath",
+            replace=["parent_path_p", "read_path", "move_path"], canary=True, **pf),
+    ]
+    quick = ctx.tier == "quick"
+    nmax = 12 if quick else 16
+    for n in range(2, nmax + 1):
+        obls.append(Obl("C18.collapse_eq_spec.n%02d" % n, "C18", B, entry="h_collapse", defines={"COLLAPSE_INC": ext, "N": str(n)},
+                        mode="bounded", bound="every absolute path of exactly %d bytes over {'/','.','a','b'} without empty components" % n,
+                        cbmc=["--unwind", str(n + 3), "--unwinding-assertions"], timeout=2400, mem_gb=12, termination=True,
+                        case={"n": n}))
+    # empty components ('//' and trailing '/') as ordinary components: smaller bound, outside the stated input domain but cheap to include
+    emax = 8 if quick else 11
+    for n in range(1, emax + 1):
+        obls.append(Obl("C18.collapse_eq_spec.empty_ok.n%02d" % n, "C18", B, entry="h_collapse",
+                        defines={"COLLAPSE_INC": ext, "N": str(n), "ALLOW_EMPTY": None}, mode="bounded",
+                        bound="every absolute path of exactly %d bytes over {'/','.','a','b'}, empty components allowed (ordinary)" % n,
+                        cbmc=["--unwind", str(n + 3), "--unwinding-assertions"], timeout=2400, mem_gb=12, termination=True,
+                        case={"n": n, "empty_components": True}))
+    # the property's own quantifier: 1..8 components, '..' at every position (2-byte components, '/' positions fixed)
+    kmax = 5 if quick else 8
+    for k in range(1, kmax + 1):
+        obls.append(Obl("C18.collapse_eq_spec.components%d" % k, "C18", B, entry="h_collapse", defines={"COLLAPSE_INC": ext, "KCOMP": str(k)},
+                        mode="bounded", bound="every path of exactly %d two-byte components over {'.','a','b'} ('..' or ordinary at every position)" % k,
+                        cbmc=["--unwind", str(3 * k + 3), "--unwinding-assertions"], timeout=2400, mem_gb=16, termination=True,
+                        case={"components": k}))
+    obls.append(Obl("C18.collapse_eq_spec.canary", "C18", B, entry="h_collapse", defines={"COLLAPSE_INC": ext, "N": "6"},
+                    mode="bounded", bound="n=6", cbmc=["--unwind", "9", "--unwinding-assertions"], canary=True))
+    return obls
